@@ -340,4 +340,115 @@ Proof.
     exact (validated_tx_c cfg team_key t (b_height b) Hfp Hwf Hver (Hall t Hin)).
 Qed.
 
+(* the same under the premises of ledger_is_replay_validated *)
+Theorem indexes_are_main_chain_validated g n0 ops :
+  cfg_ok_emission cfg = true -> cfg_ok_feepos cfg = true ->
+  node0 cfg genesis_addr g = Ok n0 -> b_height g = 0 -> b_cd g = b_diff g ->
+  N.of_nat (length ops) < two64 - 1 ->
+  let n := run cfg genesis_addr team_key n0 ops in
+  Forall (tx_c cfg) (b_txs g) ->
+  (forall h b, get_block n h = Some b -> Forall (fun t => wf_tx cfg t /\ ver_ok t = true) (b_txs b)) ->
+  (forall bs, up (b_hash g) (blocks n) (b_hash g) bs ->
+     NoDup (bkeys g ++ flat_map bkeys bs) /\ c0 g + bnouts bs < two64 /\ c0 g + bntx bs < two64) ->
+  tinv (cI (ldg n)) (intx (ldg n)) (chain_credits cfg genesis_addr (main_lbs g n)) /\
+  tinv (cN (ldg n)) (outtx (ldg n)) (chain_signs (main_lbs g n)) /\
+  hinv (txh (ldg n)) (chain_txhs (main_lbs g n)).
+Proof.
+  intros Hok Hfp Hn0 Hg0 Hcd Hlen n Hgen Htyped Hpaths.
+  apply (indexes_are_main_chain g n0 ops Hok Hn0 Hg0 Hcd Hlen).
+  exact (validated_store_pre g n0 ops Hfp Hn0 Hg0 Hcd Hlen Hgen Htyped Hpaths).
+Qed.
+
+(* ---- the three statements of the property, spelled out ---- *)
+(* the crediting / signing events of the main chain: genesis first, then the blocks of the height index in order *)
+Definition main_credits (g : block) (n : node) : list (N * N) := chain_credits cfg genesis_addr (main_lbs g n).
+Definition main_signs (g : block) (n : node) : list (N * N) := chain_signs (main_lbs g n).
+(* the blocks of the main chain *)
+Definition on_main (g : block) (n : node) (B : block) : Prop := B = g \/ In B (mchain n).
+
+Lemma in_chain_txhs C b t : In b C -> In t (lb_txs b) -> In (tx_id t, lb_height b) (chain_txhs C).
+Proof.
+  intros Hb Ht. unfold chain_txhs. apply in_flat_map. exists b. split; [exact Hb|].
+  unfold block_txhs, block_ids. rewrite map_map. apply in_map_iff. exists t. split; [reflexivity|exact Ht].
+Qed.
+
+Lemma chain_txhs_ids C id : In id (map fst (chain_txhs C)) -> exists b t, In b C /\ In t (lb_txs b) /\ tx_id t = id.
+Proof.
+  intros Hin. apply in_map_iff in Hin. destruct Hin as ([i h] & <- & Hin). unfold chain_txhs in Hin.
+  apply in_flat_map in Hin. destruct Hin as (b & Hb & Hin). unfold block_txhs, block_ids in Hin. rewrite map_map in Hin.
+  apply in_map_iff in Hin. destruct Hin as (t & [= <- <-] & Ht). exists b, t. repeat split; assumption.
+Qed.
+
+Lemma on_main_lbs g n B : on_main g n B -> exists b, In b (main_lbs g n) /\ lb_txs b = b_txs B /\ lb_height b = b_height B.
+Proof.
+  intros [->|Hin].
+  - exists (glb g). split; [left; reflexivity|split; reflexivity].
+  - exists (lb_of n B). split; [right; unfold lbs; apply in_map; exact Hin|split; reflexivity].
+Qed.
+
+Lemma main_lbs_on g n b : In b (main_lbs g n) -> exists B, on_main g n B /\ lb_txs b = b_txs B /\ lb_height b = b_height B.
+Proof.
+  intros [<-|Hin].
+  - exists g. split; [left; reflexivity|split; reflexivity].
+  - unfold lbs in Hin. apply in_map_iff in Hin. destruct Hin as (B & <- & HB). exists B. split; [right; exact HB|split; reflexivity].
+Qed.
+
+Section Statements.
+Variables (g : block) (n0 : node) (ops : list (block * N)).
+Hypothesis Hok : cfg_ok_emission cfg = true.
+Hypothesis Hfp : cfg_ok_feepos cfg = true.
+Hypothesis Hn0 : node0 cfg genesis_addr g = Ok n0.
+Hypothesis Hg0 : b_height g = 0.
+Hypothesis Hcd : b_cd g = b_diff g.
+Hypothesis Hlen : N.of_nat (length ops) < two64 - 1.
+Notation n := (run cfg genesis_addr team_key n0 ops).
+Hypothesis Hgen : Forall (tx_c cfg) (b_txs g).
+Hypothesis Htyped : forall h b, get_block n h = Some b -> Forall (fun t => wf_tx cfg t /\ ver_ok t = true) (b_txs b).
+Hypothesis Hpaths : forall bs, up (b_hash g) (blocks n) (b_hash g) bs ->
+     NoDup (bkeys g ++ flat_map bkeys bs) /\ c0 g + bnouts bs < two64 /\ c0 g + bntx bs < two64.
+
+Lemma incoming_history_is_main_chain : forall a,
+  let evs := evs_for a (main_credits g n) in
+  inc (acct_at (ldg n) a) = N.of_nat (length evs) /\
+  forall k, 1 <= k <= inc (acct_at (ldg n) a) -> pget (intx (ldg n)) (a, k) = Some (nth (N.to_nat (k - 1)) evs 0).
+Proof.
+  destruct (indexes_are_main_chain_validated g n0 ops Hok Hfp Hn0 Hg0 Hcd Hlen Hgen Htyped Hpaths) as (T & _ & _).
+  intros a. exact (T a).
+Qed.
+
+Lemma outgoing_history_is_main_chain : forall a,
+  let evs := evs_for a (main_signs g n) in
+  nonce (acct_at (ldg n) a) = N.of_nat (length evs) /\
+  forall k, 1 <= k <= nonce (acct_at (ldg n) a) -> pget (outtx (ldg n)) (a, k) = Some (nth (N.to_nat (k - 1)) evs 0).
+Proof.
+  destruct (indexes_are_main_chain_validated g n0 ops Hok Hfp Hn0 Hg0 Hcd Hlen Hgen Htyped Hpaths) as (_ & T & _).
+  intros a. exact (T a).
+Qed.
+
+Lemma tx_heights_are_main_chain :
+  (forall B t, on_main g n B -> In t (b_txs B) -> nget (txh (ldg n)) (tx_id t) = Some (b_height B)) /\
+  (forall id, (forall B t, on_main g n B -> In t (b_txs B) -> tx_id t <> id) ->
+     nget (txh (ldg n)) id = None \/ nget (txh (ldg n)) id = Some 0).
+Proof.
+  destruct (indexes_are_main_chain_validated g n0 ops Hok Hfp Hn0 Hg0 Hcd Hlen Hgen Htyped Hpaths) as (_ & _ & (T1 & T2)).
+  split.
+  - intros B t HB Ht. destruct (on_main_lbs g n B HB) as (b & Hb & Etx & Eh). rewrite <- Eh. apply T1.
+    apply in_chain_txhs; [exact Hb|rewrite Etx; exact Ht].
+  - intros id Hno. apply T2. intros Hin. destruct (chain_txhs_ids _ _ Hin) as (b & t & Hb & Ht & Eid).
+    destruct (main_lbs_on g n b Hb) as (B & HB & Etx & _). apply (Hno B t HB); [rewrite <- Etx; exact Ht|exact Eid].
+Qed.
+
+(* the histories in the form Check/C17.v compares them: the entries 1 .. counter in order = the events in chain order *)
+Lemma histories_as_served : forall a,
+  map (fun i => pget (intx (ldg n)) (a, N.of_nat i)) (seq 1 (N.to_nat (inc (acct_at (ldg n) a)))) =
+    map Some (evs_for a (main_credits g n)) /\
+  map (fun i => pget (outtx (ldg n)) (a, N.of_nat i)) (seq 1 (N.to_nat (nonce (acct_at (ldg n) a)))) =
+    map Some (evs_for a (main_signs g n)).
+Proof.
+  destruct (indexes_are_main_chain_validated g n0 ops Hok Hfp Hn0 Hg0 Hcd Hlen Hgen Htyped Hpaths) as (T1 & T2 & _).
+  intros a. split; [exact (tinv_served _ _ _ a T1)|exact (tinv_served _ _ _ a T2)].
+Qed.
+
+End Statements.
+
 End Final.
